@@ -24,6 +24,9 @@ use std::collections::BTreeMap;
 use std::io::Write;
 use std::os::fd::{AsRawFd, RawFd};
 use std::os::unix::fs::FileExt;
+use std::cell::{Cell, RefCell};
+use std::collections::VecDeque;
+use std::rc::Rc;
 use std::sync::{Arc, Mutex};
 use std::task::Poll;
 use std::time::Duration;
@@ -55,6 +58,11 @@ pub enum Op {
     /// since its last `cqsync`
     NextOpt(u32),
     Readable(u32),
+    /// sim mode: spawn a task that awaits `AsyncFd::readable()` on the ring
+    Await(u32),
+    /// sim mode: has that task returned?
+    Awaited(u32),
+    SqInfo(u32),
     DropRing(u32),
     Advance(u64),
     Crash,
@@ -88,6 +96,9 @@ impl Op {
             Op::CqSync(r) => format!("r{r} cqsync"),
             Op::Next(r) | Op::NextOpt(r) => format!("r{r} next"),
             Op::Readable(r) => format!("r{r} readable"),
+            Op::Await(r) => format!("r{r} await"),
+            Op::Awaited(r) => format!("r{r} awaited"),
+            Op::SqInfo(r) => format!("r{r} sqinfo"),
             Op::DropRing(r) => format!("r{r} dropring"),
             Op::Advance(ns) => format!("ctl advance {ns}"),
             Op::Crash => "ctl crash".into(),
@@ -126,6 +137,9 @@ impl Op {
             "cqsync" => Op::CqSync(idx),
             "next" => Op::Next(idx),
             "readable" => Op::Readable(idx),
+            "await" => Op::Await(idx),
+            "awaited" => Op::Awaited(idx),
+            "sqinfo" => Op::SqInfo(idx),
             "dropring" => Op::DropRing(idx),
             "advance" => Op::Advance(n(2)?),
             "crash" => Op::Crash,
@@ -172,6 +186,9 @@ struct RingH {
     ring: Option<IoUring>,
     cq: Option<CompletionQueue<'static>>,
     afd: Option<AsyncFd<FdOnly>>,
+    fd: RawFd,
+    /// 0 no waiter / waiting, 1 woken Ok, 2 woken Err
+    woken: Rc<Cell<u8>>,
 }
 
 struct SqeInfo {
@@ -187,6 +204,9 @@ struct SqeInfo {
 
 struct World {
     cfg: Cfg,
+    /// inside a `turmoil::Sim` host: the Sim has entered fs and io_uring; never enter them here
+    in_sim: bool,
+    next_ring: Rc<Cell<u32>>,
     fs: Arc<Mutex<Fs>>,
     twin: Arc<Mutex<Fs>>,
     iou: Arc<Mutex<IoUringHostState>>,
@@ -195,9 +215,26 @@ struct World {
     stale_fd: Vec<RawFd>,
     gen: Vec<u32>,
     twin_files: Vec<Option<File>>,
-    rings: Vec<RingH>,
+    rings: BTreeMap<u32, RingH>,
     bufs: Vec<Box<[u8]>>,
     sqes: Vec<SqeInfo>,
+}
+
+/// Create, fill and make durable the case's files on the currently entered fs.
+fn setup_files(cfg: &Cfg) -> Vec<Option<File>> {
+    create_dir_all("/u").expect("mkdir");
+    sync_dir("/").expect("sync /");
+    let mut fl = vec![];
+    for k in 0..cfg.nfiles as usize {
+        let f = open_rw(&path(k)).expect("open");
+        if !cfg.init[k].is_empty() {
+            f.write_at(&cfg.init[k], 0).expect("init write");
+        }
+        f.sync_all().expect("sync_all");
+        fl.push(Some(f));
+    }
+    sync_dir("/u").expect("sync /u");
+    fl
 }
 
 fn path(k: usize) -> String {
@@ -213,42 +250,68 @@ impl World {
         let fs = Arc::new(Mutex::new(Fs::new(fs_config(&cfg), cfg.fs_seed)));
         let twin = Arc::new(Mutex::new(Fs::new(fs_config(&cfg), cfg.fs_seed ^ 0x5555)));
         let iou = Arc::new(Mutex::new(IoUringHostState::new()));
-        let cfg_nfiles = cfg.nfiles as usize;
+        let n = cfg.nfiles as usize;
         let mut w = World {
             cfg,
+            in_sim: false,
+            next_ring: Rc::new(Cell::new(0)),
             fs,
             twin,
             iou,
             now: Duration::ZERO,
             files: vec![],
             stale_fd: vec![],
-            gen: vec![0; cfg_nfiles],
+            gen: vec![0; n],
             twin_files: vec![],
-            rings: vec![],
+            rings: BTreeMap::new(),
             bufs: vec![],
             sqes: vec![],
         };
-        for twin in [false, true] {
-            let arc = if twin { w.twin.clone() } else { w.fs.clone() };
+        let fl = {
+            let arc = w.twin.clone();
             let _g = turmoil_fs::enter(&arc, turmoil_fs::EnterCtx { now: w.now, on_corruption: None });
-            create_dir_all("/u").expect("mkdir");
-            sync_dir("/").expect("sync /");
-            let mut fl = vec![];
-            for k in 0..w.cfg.nfiles as usize {
-                let f = open_rw(&path(k)).expect("open");
-                if !w.cfg.init[k].is_empty() {
-                    f.write_at(&w.cfg.init[k], 0).expect("init write");
-                }
-                f.sync_all().expect("sync_all");
-                fl.push(Some(f));
-            }
-            sync_dir("/u").expect("sync /u");
-            if twin {
-                w.twin_files = fl;
-            } else {
-                w.stale_fd = fl.iter().map(|f| f.as_ref().unwrap().as_raw_fd()).collect();
-                w.files = fl;
-            }
+            setup_files(&w.cfg)
+        };
+        w.twin_files = fl;
+        let fl = {
+            let arc = w.fs.clone();
+            let _g = turmoil_fs::enter(&arc, turmoil_fs::EnterCtx { now: w.now, on_corruption: None });
+            setup_files(&w.cfg)
+        };
+        w.stale_fd = fl.iter().map(|f| f.as_ref().unwrap().as_raw_fd()).collect();
+        w.files = fl;
+        w
+    }
+
+    /// The world of one incarnation of the host software inside a `turmoil::Sim` (fs / io_uring entered by the Sim).
+    fn new_in_sim(cfg: Cfg, twin: Arc<Mutex<Fs>>, next_ring: Rc<Cell<u32>>, first_start: bool) -> World {
+        let n = cfg.nfiles as usize;
+        let mut w = World {
+            cfg,
+            in_sim: true,
+            next_ring,
+            fs: Arc::new(Mutex::new(Fs::new(FsConfig::default(), 0))), // unused
+            twin,
+            iou: Arc::new(Mutex::new(IoUringHostState::new())), // unused
+            now: Duration::ZERO,
+            files: (0..n).map(|_| None).collect(),
+            stale_fd: vec![999_999_999; n],
+            gen: vec![0; n],
+            twin_files: (0..n).map(|_| None).collect(),
+            rings: BTreeMap::new(),
+            bufs: vec![],
+            sqes: vec![],
+        };
+        if first_start {
+            let fl = {
+                let arc = w.twin.clone();
+                let _g = turmoil_fs::enter(&arc, turmoil_fs::EnterCtx { now: w.now, on_corruption: None });
+                setup_files(&w.cfg)
+            };
+            w.twin_files = fl;
+            let fl = setup_files(&w.cfg);
+            w.stale_fd = fl.iter().map(|f| f.as_ref().unwrap().as_raw_fd()).collect();
+            w.files = fl;
         }
         w
     }
@@ -263,6 +326,9 @@ impl World {
 
     /// Run `f` with the main fs and the ring registry entered at the current time.
     fn entered<R>(&mut self, f: impl FnOnce(&mut World) -> R) -> R {
+        if self.in_sim {
+            return f(self);
+        }
         let fs = self.fs.clone();
         let iou = self.iou.clone();
         let _g1 = turmoil_fs::enter(&fs, turmoil_fs::EnterCtx { now: self.now, on_corruption: None });
@@ -306,7 +372,11 @@ impl World {
 
     fn whole_file(&mut self, twin: bool, k: usize) -> Vec<u8> {
         let arc = if twin { self.twin.clone() } else { self.fs.clone() };
-        let _g = turmoil_fs::enter(&arc, turmoil_fs::EnterCtx { now: self.now, on_corruption: None });
+        let _g = if !twin && self.in_sim {
+            None
+        } else {
+            Some(turmoil_fs::enter(&arc, turmoil_fs::EnterCtx { now: self.now, on_corruption: None }))
+        };
         // a fresh read-only handle, so that closed files can be inspected too
         match OpenOptions::new().read(true).open(path(k)) {
             Ok(f) => {
@@ -327,9 +397,12 @@ impl World {
                 self.entered(|w| match IoUring::new(entries) {
                     Err(_) => "invalid".to_string(),
                     Ok(ring) => {
-                        let afd = AsyncFd::new(FdOnly(ring.as_raw_fd())).ok();
-                        w.rings.push(RingH { ring: Some(ring), cq: None, afd });
-                        format!("ring {}", w.rings.len() - 1)
+                        let fd = ring.as_raw_fd();
+                        let afd = AsyncFd::new(FdOnly(fd)).ok();
+                        let id = w.next_ring.get();
+                        w.next_ring.set(id + 1);
+                        w.rings.insert(id, RingH { ring: Some(ring), cq: None, afd, fd, woken: Rc::new(Cell::new(0)) });
+                        format!("ring {id}")
                     }
                 })
             }
@@ -360,7 +433,7 @@ impl World {
                 }
                 let (ring, ud, kind, link) = (*ring, *ud, kind.clone(), *link);
                 self.entered(|w| {
-                    let Some(rh) = w.rings.get_mut(ring as usize) else { return "invalid".to_string() };
+                    let Some(rh) = w.rings.get_mut(&ring) else { return "invalid".to_string() };
                     let Some(r) = rh.ring.as_mut() else { return "invalid".to_string() };
                     match unsafe { r.submission().push(&entry) } {
                         Ok(()) => {
@@ -381,7 +454,7 @@ impl World {
                 let (ring, mode, want) = (*ring, *mode, *want);
                 let _ = turmoil_io_uring::verif::take_latencies();
                 let res = self.entered(|w| {
-                    let Some(rh) = w.rings.get(ring as usize) else { return "invalid".to_string() };
+                    let Some(rh) = w.rings.get(&ring) else { return "invalid".to_string() };
                     let Some(r) = rh.ring.as_ref() else { return "invalid".to_string() };
                     let res = match mode {
                         0 => r.submit(),
@@ -409,7 +482,7 @@ impl World {
             Op::CqNew(ring) => {
                 let ring = *ring;
                 self.entered(|w| {
-                    let Some(rh) = w.rings.get_mut(ring as usize) else { return "invalid".to_string() };
+                    let Some(rh) = w.rings.get_mut(&ring) else { return "invalid".to_string() };
                     let Some(r) = rh.ring.as_ref() else { return "invalid".to_string() };
                     let cq = unsafe { std::mem::transmute::<CompletionQueue<'_>, CompletionQueue<'static>>(r.completion_shared()) };
                     rh.cq = Some(cq);
@@ -419,7 +492,7 @@ impl World {
             Op::CqSync(ring) => {
                 let ring = *ring;
                 self.entered(|w| {
-                    let Some(rh) = w.rings.get_mut(ring as usize) else { return "invalid".to_string() };
+                    let Some(rh) = w.rings.get_mut(&ring) else { return "invalid".to_string() };
                     let Some(cq) = rh.cq.as_mut() else { return "invalid".to_string() };
                     cq.sync();
                     format!("synced {}", cq.len())
@@ -428,7 +501,7 @@ impl World {
             Op::Next(ring) | Op::NextOpt(ring) => {
                 let ring = *ring;
                 let got = self.entered(|w| {
-                    let rh = w.rings.get_mut(ring as usize)?;
+                    let rh = w.rings.get_mut(&ring)?;
                     let cq = rh.cq.as_mut()?;
                     Some(cq.next().map(|e| (e.user_data(), e.result())))
                 });
@@ -481,7 +554,7 @@ impl World {
             Op::Readable(ring) => {
                 let ring = *ring;
                 self.entered(|w| {
-                    let Some(rh) = w.rings.get(ring as usize) else { return "invalid".to_string() };
+                    let Some(rh) = w.rings.get(&ring) else { return "invalid".to_string() };
                     let Some(afd) = rh.afd.as_ref() else { return "invalid".to_string() };
                     let mut fut = Box::pin(afd.readable());
                     let r = match poll_once(fut.as_mut()) {
@@ -493,10 +566,49 @@ impl World {
                     r
                 })
             }
+            Op::Await(ring) => {
+                let ring = *ring;
+                if !self.in_sim {
+                    "invalid".to_string()
+                } else {
+                    match self.rings.get(&ring) {
+                        None => "invalid".to_string(),
+                        Some(rh) => match AsyncFd::new(FdOnly(rh.fd)) {
+                            Err(e) => format!("err {}", util::io_kind(&e)),
+                            Ok(afd) => {
+                                let flag = rh.woken.clone();
+                                flag.set(0);
+                                tokio::task::spawn_local(async move {
+                                    let r = afd.readable().await.map(|_| ());
+                                    flag.set(if r.is_ok() { 1 } else { 2 });
+                                });
+                                "unit".to_string()
+                            }
+                        },
+                    }
+                }
+            }
+            Op::Awaited(ring) => match self.rings.get(ring) {
+                None => "invalid".to_string(),
+                Some(rh) => match rh.woken.get() {
+                    0 => "waiting".to_string(),
+                    1 => "woken".to_string(),
+                    _ => "wokenerr".to_string(),
+                },
+            },
+            Op::SqInfo(ring) => {
+                let ring = *ring;
+                self.entered(|w| {
+                    let Some(rh) = w.rings.get_mut(&ring) else { return "invalid".to_string() };
+                    let Some(r) = rh.ring.as_mut() else { return "invalid".to_string() };
+                    let sq = r.submission();
+                    format!("sq len={} full={} cap={}", sq.len(), sq.is_full() as u8, sq.capacity())
+                })
+            }
             Op::DropRing(ring) => {
                 let ring = *ring;
                 self.entered(|w| {
-                    let Some(rh) = w.rings.get_mut(ring as usize) else { return "invalid".to_string() };
+                    let Some(rh) = w.rings.get_mut(&ring) else { return "invalid".to_string() };
                     rh.ring = None;
                     "unit".to_string()
                 })
@@ -505,6 +617,7 @@ impl World {
                 self.now += Duration::from_nanos(*ns);
                 "unit".into()
             }
+            Op::Crash if self.in_sim => "invalid".into(), // done by the harness around the Sim
             Op::Crash => {
                 // host software dies: its files and rings are dropped by `Rt::crash` while no subsystem is
                 // entered (so `IoUring::drop` cannot unregister), then `Fs::crash` and `IoUringHostState::crash`.
@@ -638,13 +751,17 @@ impl World {
 #[derive(Clone)]
 pub struct Case {
     family: &'static str,
+    /// "standalone" or "sim"
+    mode: &'static str,
     cfg: Cfg,
     ops: Vec<Op>,
 }
 
-fn cfg_line(c: &Cfg) -> String {
+const TICK_NS: u64 = 1_000_000;
+
+fn cfg_line(c: &Cfg, mode: &str, simseed: u64) -> String {
     format!(
-        "CFG nfiles={} latmin={} latmax={} cache={} fsseed={} init={}",
+        "CFG mode={mode} simseed={simseed} nfiles={} latmin={} latmax={} cache={} fsseed={} init={}",
         c.nfiles,
         c.lat_min,
         c.lat_max,
@@ -652,6 +769,158 @@ fn cfg_line(c: &Cfg) -> String {
         c.fs_seed,
         c.init.iter().map(|b| hex(b)).collect::<Vec<_>>().join(",")
     )
+}
+
+/// The same op language inside a real `turmoil::Sim`: one host whose software executes the queued ops in
+/// lock-step (one op, one `sim.step()`); `crash` is `Sim::crash` + `Sim::bounce`; ring time is the host's clock.
+fn run_case_sim(case: &Case, seed: u64) -> Vec<String> {
+    let case = case.clone();
+    let handle = std::thread::Builder::new()
+        .name("case".into())
+        .spawn(move || {
+            util::install_quiet_panic_hook();
+            let mut lines: Vec<String> = vec![];
+            let cfg = case.cfg.clone();
+            let twin = Arc::new(Mutex::new(Fs::new(fs_config(&cfg), cfg.fs_seed ^ 0x5555)));
+            let queue: Rc<RefCell<VecDeque<Op>>> = Rc::default();
+            let results: Rc<RefCell<VecDeque<(Vec<String>, String)>>> = Rc::default();
+            let notify = Rc::new(tokio::sync::Notify::new());
+            let next_ring = Rc::new(Cell::new(0u32));
+            let started = Rc::new(Cell::new(false));
+
+            let mut builder = turmoil::Builder::new();
+            builder
+                .simulation_duration(Duration::from_secs(1_000_000))
+                .tick_duration(Duration::from_nanos(TICK_NS))
+                .rng_seed(seed);
+            if cfg.lat_max > 0 {
+                builder.fs().io_latency().min_latency(Duration::from_nanos(cfg.lat_min)).max_latency(Duration::from_nanos(cfg.lat_max));
+            }
+            if cfg.cache {
+                builder.fs().page_cache().page_size(16).max_pages(4);
+            }
+            let mut sim = builder.build();
+            {
+                let (queue, results, notify, next_ring, started, twin, cfg) =
+                    (queue.clone(), results.clone(), notify.clone(), next_ring.clone(), started.clone(), twin.clone(), cfg.clone());
+                sim.host("srv", move || {
+                    let (queue, results, notify, next_ring, started, twin, cfg) =
+                        (queue.clone(), results.clone(), notify.clone(), next_ring.clone(), started.clone(), twin.clone(), cfg.clone());
+                    async move {
+                        let first = !started.replace(true);
+                        let mut w = World::new_in_sim(cfg, twin, next_ring, first);
+                        loop {
+                            notify.notified().await;
+                            loop {
+                                let Some(op) = queue.borrow_mut().pop_front() else { break };
+                                let r = w.exec(&op);
+                                results.borrow_mut().push_back(r);
+                            }
+                        }
+                    }
+                });
+            }
+            let mut dead = false;
+            let mut step = |sim: &mut turmoil::Sim<'_>| -> Result<(), &'static str> {
+                match catch(|| sim.step()) {
+                    Ok(Ok(_)) => Ok(()),
+                    Ok(Err(_)) => Err("simerr"),
+                    Err(c) => Err(c),
+                }
+            };
+            // software start: files created, host parked on `notified()`
+            if step(&mut sim).is_err() {
+                lines.push("OBS panic start".into());
+                dead = true;
+            }
+            let mut dry: BTreeMap<u32, bool> = BTreeMap::new();
+            for op in &case.ops {
+                if dead {
+                    break;
+                }
+                match op {
+                    Op::NextOpt(r) if dry.get(r).copied().unwrap_or(false) => continue,
+                    Op::CqSync(r) => {
+                        dry.insert(*r, false);
+                    }
+                    _ => {}
+                }
+                lines.push(format!("OP {}", op.text()));
+                match op {
+                    Op::Advance(ns) => {
+                        for _ in 0..(*ns / TICK_NS) {
+                            if let Err(c) = step(&mut sim) {
+                                lines.push(format!("OBS panic {c}"));
+                                dead = true;
+                                break;
+                            }
+                        }
+                        if !dead {
+                            lines.push("OBS unit".into());
+                        }
+                    }
+                    Op::Crash => {
+                        let r = catch(|| {
+                            sim.crash("srv");
+                            twin.lock().unwrap().crash();
+                            sim.bounce("srv");
+                        });
+                        match r.and_then(|_| step(&mut sim)) {
+                            Ok(()) => {
+                                lines.push("OBS unit".into());
+                                lines.push(format!("OP ctl advance {TICK_NS}"));
+                                lines.push("OBS unit".into());
+                            }
+                            Err(c) => {
+                                lines.push(format!("OBS panic {c}"));
+                                dead = true;
+                            }
+                        }
+                    }
+                    _ => {
+                        queue.borrow_mut().push_back(op.clone());
+                        notify.notify_one();
+                        match step(&mut sim) {
+                            Err(c) => {
+                                lines.push(format!("OBS panic {c}"));
+                                dead = true;
+                            }
+                            Ok(()) => match results.borrow_mut().pop_front() {
+                                None => {
+                                    lines.push("OBS notrun".into());
+                                    dead = true;
+                                }
+                                Some((ora, obs)) => {
+                                    if let Op::NextOpt(r) = op {
+                                        if obs == "none" || obs == "invalid" {
+                                            dry.insert(*r, true);
+                                        }
+                                    }
+                                    for o in ora {
+                                        lines.push(format!("ORA {o}"));
+                                    }
+                                    lines.push(format!("OBS {obs}"));
+                                    // the op ran at the start of a tick; the tick then elapsed
+                                    lines.push(format!("OP ctl advance {TICK_NS}"));
+                                    lines.push("OBS unit".into());
+                                }
+                            },
+                        }
+                    }
+                }
+            }
+            if dead {
+                std::mem::forget(sim);
+            } else {
+                let _ = catch(move || drop(sim));
+            }
+            lines
+        })
+        .expect("spawn");
+    match handle.join() {
+        Ok(l) => l,
+        Err(_) => vec!["OBS panic harness".into()],
+    }
 }
 
 fn run_case(case: &Case) -> Vec<String> {
@@ -723,6 +992,10 @@ struct GenParams {
     w_dropring: u64,
     w_crash: u64,
     dup_ud: bool,
+    w_sqinfo: u64,
+    /// inside a turmoil::Sim: whole-tick advances, real `readable().await` waiters
+    sim: bool,
+    w_await: u64,
 }
 
 fn gen_cfg(rng: &mut Rng, nfiles: u32) -> Cfg {
@@ -744,6 +1017,8 @@ fn gen_cfg(rng: &mut Rng, nfiles: u32) -> Cfg {
 }
 
 const ADVANCES: [u64; 8] = [0, 100, 10_000, 50_000, 1_000_000, 1_000_000, 5_000_000, 20_000_000];
+/// sim mode: every op costs one tick by itself; explicit advances are ≥ 2 ticks (so that a replay can tell them apart)
+const ADVANCES_SIM: [u64; 5] = [2_000_000, 2_000_000, 3_000_000, 5_000_000, 20_000_000];
 
 /// Random, state-aware history.
 fn gen_history(rng: &mut Rng, p: &GenParams) -> (Cfg, Vec<Op>) {
@@ -759,7 +1034,8 @@ fn gen_history(rng: &mut Rng, p: &GenParams) -> (Cfg, Vec<Op>) {
         ring_live.push(true);
         ops.push(Op::CqNew(ring_live.len() as u32 - 1));
     }
-    let total = p.w_push + p.w_submit + p.w_cancel + p.w_advance + p.w_drain + p.w_readable + p.w_file + p.w_close + p.w_dropring + p.w_crash;
+    let total = p.w_push + p.w_submit + p.w_cancel + p.w_advance + p.w_drain + p.w_readable + p.w_file + p.w_close + p.w_dropring + p.w_crash + p.w_sqinfo + p.w_await;
+    let advances: &[u64] = if p.sim { &ADVANCES_SIM } else { &ADVANCES };
     let mut crashed = false;
     while ops.len() < p.len {
         let live: Vec<u32> = ring_live.iter().enumerate().filter(|(_, l)| **l).map(|(i, _)| i as u32).collect();
@@ -834,8 +1110,16 @@ fn gen_history(rng: &mut Rng, p: &GenParams) -> (Cfg, Vec<Op>) {
                 ops.push(Op::Submit { ring, mode: 0, want: 0 });
                 submitted_uds.append(&mut pushed_uds.clone());
             }
+        } else if take!(p.w_sqinfo) {
+            ops.push(Op::SqInfo(ring));
+        } else if take!(p.w_await) {
+            if rng.chance(1, 2) {
+                ops.push(Op::Await(ring));
+            } else {
+                ops.push(Op::Awaited(ring));
+            }
         } else if take!(p.w_advance) {
-            ops.push(Op::Advance(*rng.pick(&ADVANCES)));
+            ops.push(Op::Advance(*rng.pick(advances)));
         } else if take!(p.w_drain) {
             match rng.below(8) {
                 0 => ops.push(Op::CqNew(ring)),
@@ -843,7 +1127,7 @@ fn gen_history(rng: &mut Rng, p: &GenParams) -> (Cfg, Vec<Op>) {
                 2 => {
                     // sync, let time pass, then iterate
                     ops.push(Op::CqSync(ring));
-                    ops.push(Op::Advance(*rng.pick(&ADVANCES)));
+                    ops.push(Op::Advance(*rng.pick(advances)));
                     ops.push(Op::Next(ring));
                 }
                 3 | 4 => {
@@ -950,6 +1234,9 @@ fn crash_points(rng: &mut Rng, out: &mut Vec<Case>, n_bases: usize) {
             w_dropring: 0,
             w_crash: 0,
             dup_ud: false,
+            w_sqinfo: 1,
+            sim: false,
+            w_await: 0,
         };
         let cfg = gen_cfg(rng, 1);
         let (_, mut base) = gen_history(rng, &p);
@@ -982,7 +1269,7 @@ fn crash_points(rng: &mut Rng, out: &mut Vec<Case>, n_bases: usize) {
             ops.push(Op::Push { ring: 1, ud: 801, kind: Kind::Write { fd: 0, off: 1, data: vec![0x11, 0x22] }, link: false });
             ops.push(Op::Submit { ring: 1, mode: 0, want: 0 });
             closing(&mut ops, 2);
-            out.push(Case { family: "crashpoint", cfg: cfg.clone(), ops });
+            out.push(Case { family: "crashpoint", mode: "standalone", cfg: cfg.clone(), ops });
         }
     }
 }
@@ -1042,7 +1329,7 @@ fn cancel_matrix(rng: &mut Rng, out: &mut Vec<Case>) {
                         _ => {}
                     }
                     closing(&mut ops, 1);
-                    out.push(Case { family: "cancelmatrix", cfg, ops });
+                    out.push(Case { family: "cancelmatrix", mode: "standalone", cfg, ops });
                 }
             }
         }
@@ -1106,7 +1393,7 @@ fn durability(rng: &mut Rng, out: &mut Vec<Case>, n: usize) {
         ops.push(Op::FOpen(0));
         ops.push(Op::FRead { fd: 0, off: 0, len: 16 });
         closing(&mut ops, 1);
-        out.push(Case { family: "durability", cfg, ops });
+        out.push(Case { family: "durability", mode: "standalone", cfg, ops });
     }
 }
 
@@ -1126,8 +1413,26 @@ pub fn main(args: &Args, out: &mut dyn Write) {
         let mut init = init;
         init.resize(nfiles as usize, vec![]);
         let cfg = Cfg { nfiles, lat_min: get("latmin", 0), lat_max: get("latmax", 0), cache: get("cache", 0) == 1, fs_seed: get("fsseed", 1), init };
-        let ops = sc.ops.iter().filter_map(|t| Op::parse(t)).collect();
-        cases.push(Case { family: "replay", cfg, ops });
+        let ops: Vec<Op> = sc.ops.iter().filter_map(|t| Op::parse(t)).collect();
+        let mode = if sc.cfg.iter().any(|(k, v)| k == "mode" && v == "sim") { "sim" } else { "standalone" };
+        // in sim mode the per-op `advance <tick>` lines are produced by the harness itself
+        let ops: Vec<Op> = if mode == "sim" {
+            let mut out: Vec<Op> = vec![];
+            let all: Vec<Op> = ops;
+            let mut i = 0;
+            while i < all.len() {
+                out.push(all[i].clone());
+                let auto = !matches!(all[i], Op::Advance(_));
+                if auto && matches!(all.get(i + 1), Some(Op::Advance(n)) if *n == TICK_NS) {
+                    i += 1;
+                }
+                i += 1;
+            }
+            out
+        } else {
+            ops
+        };
+        cases.push(Case { family: "replay", mode, cfg, ops });
     } else {
         let scale = match args.tier.as_str() {
             "thorough" => 30,
@@ -1151,6 +1456,9 @@ pub fn main(args: &Args, out: &mut dyn Write) {
             w_dropring: 1,
             w_crash: 2,
             dup_ud: false,
+            w_sqinfo: 2,
+            sim: false,
+            w_await: 0,
         };
         let plans: Vec<(GenParams, usize)> = vec![
             (GenParams { len: 24, w_crash: 0, w_dropring: 0, ..fam("batch") }, 220),
@@ -1164,8 +1472,19 @@ pub fn main(args: &Args, out: &mut dyn Write) {
         for (p, n) in plans {
             for _ in 0..n * scale {
                 let (cfg, ops) = gen_history(&mut rng, &p);
-                cases.push(Case { family: p.family, cfg, ops });
+                cases.push(Case { family: p.family, mode: "standalone", cfg, ops });
             }
+        }
+        // the same language inside a real turmoil::Sim (Sim::crash / bounce, AsyncFd waiters woken by tokio)
+        let simp = GenParams { sim: true, w_await: 10, w_readable: 4, w_crash: 3, w_dropring: 2, len: 30, ..fam("simhost") };
+        for _ in 0..120 * scale {
+            let (cfg, ops) = gen_history(&mut rng, &simp);
+            cases.push(Case { family: "simhost", mode: "sim", cfg, ops });
+        }
+        let simp2 = GenParams { sim: true, w_await: 6, nrings: 2, nfiles: 2, w_crash: 6, len: 36, ..fam("simhost") };
+        for _ in 0..60 * scale {
+            let (cfg, ops) = gen_history(&mut rng, &simp2);
+            cases.push(Case { family: "simhost", mode: "sim", cfg, ops });
         }
         cancel_matrix(&mut rng, &mut cases);
         crash_points(&mut rng, &mut cases, 30 * scale);
@@ -1178,11 +1497,14 @@ pub fn main(args: &Args, out: &mut dyn Write) {
     let mut hist: BTreeMap<String, usize> = BTreeMap::new();
     let mut fam: BTreeMap<&'static str, usize> = BTreeMap::new();
     let mut total_ops = 0usize;
+    let replay_simseed: Option<u64> = args.replay.as_ref().and_then(|pth| {
+        util::read_case_file(pth).cfg.iter().find(|(k, _)| k == "simseed").and_then(|(_, v)| v.parse().ok())
+    });
     for (n, case) in cases.iter().enumerate() {
-        let seed = rng.next();
+        let seed = replay_simseed.unwrap_or_else(|| rng.next());
         writeln!(out, "CASE {n} family={} seed={seed}", case.family).unwrap();
-        writeln!(out, "{}", cfg_line(&case.cfg)).unwrap();
-        let lines = run_case(case);
+        writeln!(out, "{}", cfg_line(&case.cfg, case.mode, seed)).unwrap();
+        let lines = if case.mode == "sim" { run_case_sim(case, seed) } else { run_case(case) };
         for l in &lines {
             writeln!(out, "{l}").unwrap();
             let toks: Vec<&str> = l.split_whitespace().collect();
